@@ -264,7 +264,25 @@ def build(cls_name, cfg, rec: Recorder):
         orig()
         rec.snapshot(opt)
     opt._from_population_g_to_fitness = wrapped
+    orig_stats = opt._update_stats
+    rec.stat_updates = []      # deep copies taken at the moment a value is handed to the statistics
+
+    def wrapped_stats(**kwargs):
+        snap = copy.deepcopy(kwargs)
+        orig_stats(**kwargs)
+        if cfg.get("keep_history", True):
+            rec.stat_updates.append(snap)
+    opt._update_stats = wrapped_stats
     return opt, kw
+
+
+def make_init_outside(cls_name, cfg, seed):
+    """a float init_population with some coordinates outside the box (DE family)"""
+    pop = make_init(cls_name, cfg, seed)
+    pop = np.array(pop, dtype=np.float64)
+    pop[::2, 0] = cfg.get("right", 3.0) + 1.25
+    pop[1::3, -1] = cfg.get("left", -2.0) - 0.75
+    return pop
 
 
 def make_init(cls_name, cfg, seed):
@@ -378,6 +396,8 @@ def configs(tier: str, seed: int, classes=None, extra_stop=True):
             if c["init"]:
                 cfg["init_population"] = "make"
             out.append((cn, cfg))
+        if cn in FLOAT:
+            out.append((cn, dict(base, objective="sphere", iters=3, seed=seed * 100 + 60, init_population="outside", keep_history=True)))
         if extra_stop:
             # stopping scenarios: target at the first / a middle generation / never; error sides; stagnation; iters = 1
             o = "onemax" if cn not in FLOAT else "sphere"
@@ -410,8 +430,8 @@ def run_all(tier: str, seed: int, classes=None, extra_stop=True):
     recs = []
     for cn, cfg in configs(tier, seed, classes, extra_stop):
         cfg = dict(cfg)
-        if cfg.get("init_population") == "make":
-            cfg["init_population"] = make_init(cn, cfg, cfg["seed"])
+        if cfg.get("init_population") in ("make", "outside"):
+            cfg["init_population"] = (make_init_outside if cfg["init_population"] == "outside" else make_init)(cn, cfg, cfg["seed"])
             cfg["_init_copy"] = copy.deepcopy(cfg["init_population"])
         try:
             recs.append(record(cn, cfg))
